@@ -460,6 +460,35 @@ static void sc_case(uint64_t idx, void *ctx)
     free(g_payload); g_payload = NULL;
 }
 
+
+/* ------------------------------------------------------------------ sprintf: every formatted length up to a bound (internal probe/retry buffers have sizes of their own) */
+static void sp_desc(uint64_t idx, void *ctx, char *b, size_t n) { (void) ctx; static const char *f[3] = { "\"%s\" with a string of n characters", "\"%*d\" with width n", "\"<%s>\" with a string of n characters" }; snprintf(b, n, CLS " sprintf(%s), n=%d, then the same on an object that already holds text", f[idx % 3], (int) (idx / 3)); }
+static void sp_case(uint64_t idx, void *ctx)
+{
+    int n = (int) (idx / 3), form = (int) (idx % 3); (void) ctx;
+    char *arg = malloc((size_t) n + 1), *exp = malloc((size_t) n + 16);
+    for (int i = 0; i < n; i++) arg[i] = (char) ('A' + (i * 11 + i / 64) % 26);
+    arg[n] = 0;
+    const char *shape = n < 2 ? "formatted length below 2" : (n < 64 ? "formatted length below 64" : (n < 4096 ? "formatted length 64..4095" : "formatted length 4096 or more"));
+    mc_set_shape(shape);
+    for (int pre = 0; pre < 2; pre++) {
+        T o = pre ? F(new_from_ptr)((void *) "previous text") : F(new)();
+        spif_bool_t r; size_t el;
+        if (form == 0) { r = F(sprintf)(o, (spif_charptr_t) "%s", arg); el = (size_t) sprintf(exp, "%s", arg); }
+        else if (form == 1) { r = F(sprintf)(o, (spif_charptr_t) "%*d", n, 7); el = (size_t) sprintf(exp, "%*d", n, 7); }
+        else { r = F(sprintf)(o, (spif_charptr_t) "<%s>", arg); el = (size_t) sprintf(exp, "<%s>", arg); }
+        if (el == 0) { if (o->s && o->len) FAIL(CLS "_sprintf", "model:len", shape, "empty result but len=%ld", (long) o->len); }
+        else if (!r) FAIL(CLS "_sprintf", "model:return", shape, "sprintf returned FALSE for a %zu-character result", el);
+        else if (!o->s || (size_t) o->len != el || memcmp(o->s, exp, el) || o->s[o->len] != 0 || o->size <= o->len) {
+            size_t d = 0; while (o->s && d < el && d < (size_t) o->len && ((unsigned char *) o->s)[d] == (unsigned char) exp[d]) d++;
+            FAIL(CLS "_sprintf", "model:content", shape, "formatted result of %zu characters: len=%ld size=%ld, first difference at offset %zu", el, (long) o->len, (long) o->size, d);
+        }
+        F(del)(o);
+    }
+    free(arg); free(exp);
+    if (n) mc_nontrivial();
+}
+
 int main(int argc, char **argv)
 {
     mc_init("C01", argc, argv);
@@ -476,5 +505,6 @@ int main(int argc, char **argv)
     g_dev = (int) mc_arg_int("dev", 2);
     if (!mc_arg("only", NULL) || !strcmp(mc_arg("only", ""), "ctor"))
         mc_e2_level(CLS "_stream_ctor", g_k * 10 + g_dev, (uint64_t) NSRC * 6 * NLENS, sc_case, sc_desc, NULL);
+    { int maxn = (int) mc_arg_int("spmax", mc_thorough() ? 9000 : 700); mc_e2_level(CLS "_sprintf_len", maxn, (uint64_t) (maxn + 1) * 3, sp_case, sp_desc, NULL); }
     return mc_finish();
 }
